@@ -105,6 +105,12 @@ def run_property(plugin, tier, seed, replay=None, no_build=False):
                               argv, "%s-%s" % (pid, tag), timeout=getattr(plugin, "RUN_TIMEOUT", 1500))
         with ThreadPoolExecutor(max_workers=getattr(plugin, "PARALLEL", 8)) as ex:
             results = list(ex.map(do, runs))
+        tag = getattr(plugin, "VIOL_TAG", None)
+        if tag:   # a driver shared by several properties tags its monitor lines; keep this property's
+            for r in results:
+                for c in r["cases"]:
+                    c.viol = [v for v in c.viol if v.startswith(tag + " ")]
+                r["viol"] = [i for i, c in enumerate(r["cases"]) if c.viol]
 
     known = [k for k in V.load_known() if k.get("property") == pid and k.get("status") == "known"]
     evaluations = ops = 0
@@ -140,10 +146,11 @@ def run_property(plugin, tier, seed, replay=None, no_build=False):
                 continue
             if len(violations) < 5:
                 small = None
-                try:
-                    small = V.minimise(driver, None, c, lambda rr: bool(rr["viol"]))
-                except Exception:
-                    small = None
+                if not getattr(plugin, "NO_MINIMISE", False):
+                    try:
+                        small = V.minimise(driver, None, c, lambda rr: bool(rr["viol"]))
+                    except Exception:
+                        small = None
                 cc = small["cases"][small["viol"][0]] if small else c
                 k += 1
                 path = V.write_replay(pid, seed, k, cc, {
@@ -174,7 +181,7 @@ def run_property(plugin, tier, seed, replay=None, no_build=False):
         if found:
             rr, j = found
             cc = rr["cases"][j]
-            small = V.minimise(driver, None, cc, lambda x: bool(x["viol"]))
+            small = None if getattr(plugin, "NO_MINIMISE", False) else V.minimise(driver, None, cc, lambda x: bool(x["viol"]))
             if small:
                 cc = small["cases"][small["viol"][0]]
             k += 1
@@ -184,10 +191,11 @@ def run_property(plugin, tier, seed, replay=None, no_build=False):
             violations.append((path, cc.viol[0], False))
         else:
             small = None
-            try:
-                small = V.minimise(driver, model, c, lambda x: bool(x["mismatch"]))
-            except Exception:
-                small = None
+            if not getattr(plugin, "NO_MINIMISE", False):
+                try:
+                    small = V.minimise(driver, model, c, lambda x: bool(x["mismatch"]))
+                except Exception:
+                    small = None
             if small:
                 j, d2, mobs2 = small["mismatch"][0]
                 c, d, mobs = small["cases"][j], d2, mobs2
